@@ -185,7 +185,7 @@ def run(R):
     for a, b in pairs.items():
         ra, rb = byid.get(a), byid.get(b)
         if ra is None or 'ex' not in ra:
-            if ra is not None and 'grammar_error' in ra:
+            if ra is not None and 'grammar_error' in ra and ra['grammar_error'] != 'unconfirmed-timeout':
                 R.counterexample('translator', 'grammar-construction:' + (ra['grammar_error'].split(':') + ['?'])[1],
                                  {'grammar': ra['desc']}, 'a grammar module', ra['grammar_error'])
             continue
